@@ -160,6 +160,16 @@ fn judge_image(
         Ok(Ok(())) => {}
     }
     probes.hit("images_reopened");
+    // Known recovery defect F-C01-1: every reopen of an image is a recovery.  When the recovered
+    // tree carries that defect's signature, what is read from it is attributed to it.
+    let misorder = ex.recovery_misorder_signature();
+    if misorder.is_some() {
+        probes.hit("images_recovered_with_misordered_levels_F-C01-1");
+    }
+    let v = |p: &str, class: String, detail: String| match misorder.as_ref() {
+        Some(m) if !class.starts_with("reopen-") => v(p, format!("misordered-levels-from-reopen:{class}"), format!("{detail} [{m}]")),
+        _ => v(p, class, detail),
+    };
     let want_prev = normalise(s_prev, h);
     let want_next = s_next.map(|m| normalise(m, h));
     let r = catch_unwind(AssertUnwindSafe(|| observe(&ex)));
@@ -342,6 +352,10 @@ fn judge_image(
             }
             // the probe key is not part of the universe, so `obs` is unaffected by it
             if obs != want {
+                // this reopen was a recovery too
+                if let Some(m) = ex.recovery_misorder_signature() {
+                    return Err(format!("MISORDERED-CONTENTS {} [{m}]", describe_diff(&obs, &want)));
+                }
                 return Err(format!("CONTENTS {}", describe_diff(&obs, &want)));
             }
             Ok(())
@@ -353,6 +367,10 @@ fn judge_image(
             }
             Ok(Err(e)) if e.starts_with("CONTENTS") => {
                 v("C08", "contents-changed-after-verifier-pass-on-crash-image".to_string(), e)
+            }
+            Ok(Err(e)) if e.starts_with("MISORDERED-CONTENTS") => {
+                probes.hit("images_recovered_with_misordered_levels_F-C01-1");
+                v("C08", "misordered-levels-from-reopen:contents-changed-after-verifier-pass-on-crash-image".to_string(), e)
             }
             Ok(Err(e)) => {
                 // a verifier that cannot proceed is C04's accept half
